@@ -766,7 +766,7 @@ pub fn defs() -> Vec<PropDef> {
         PropDef {
             id: "C01",
             level: "exploration",
-            rule: "proptest-generated 2-3 thread programs over get/get_key_value/contains_key/insert/try_insert/remove/remove_entry/compute_if_present on 1-3 hot keys (initial states: near the resize threshold, 7/8-node list bin, tree bin, empty, uninitialised table), each executed under the serialising scheduler for all 0- and 1-preemption schedules (sampled above 400), a budgeted set of 2-preemption schedules and random sparse tapes; plus long programs (4-8 threads x 6-12 ops, random tapes only) and 2-3 thread HashSet programs (insert/remove/take/contains/get/retain through the guard, pin() and with_guard() facades; cell value = stored key instance); oracle = per-key Wing-Gong linearizability of the recorded history incl. a final read of every key, plus quiescent agreement; evaluations = (program, schedule) executions; non-trivial = two operations of different threads on one key overlapped with at least one write, or the execution crossed a resize or tree conversion; distinct = hash(program) x hash(preemptions performed)",
+            rule: "proptest-generated 2-3 thread programs over get/get_key_value/contains_key/insert/try_insert/remove/remove_entry/compute_if_present on 1-3 hot keys (initial states: near the resize threshold, 7/8-node list bin, tree bin, empty, uninitialised table), each executed under the serialising scheduler for all 0- and 1-preemption schedules (sampled above 400), a budgeted set of 2-preemption schedules and random sparse tapes; plus long programs (4-8 threads x 6-12 ops, random tapes only), programs around multi-helper resizes (sampled three-preemption schedules on the control words), tree bins migrating to either half, writers racing clear/iteration/serialisation/extend, the first operations on an unallocated map, crowd programs (1-129 single-operation threads staggered into one bin plus a writer) and 2-3 thread HashSet programs (insert/remove/take/contains/get/retain through the guard, pin() and with_guard() facades; cell value = stored key instance); oracle = per-key Wing-Gong linearizability of the recorded history incl. a final read of every key (items of extend are blind writes; a search beyond 3 million configurations or 127 operations per key is abandoned and counts as explained), entry coherence (a key instance handed out with a value must be the key of the entry the value was written into), plus quiescent agreement; evaluations = (program, schedule) executions; non-trivial = two operations of different threads on one key overlapped with at least one write, or the execution crossed a resize or tree conversion; distinct = hash(program) x hash(preemptions performed)",
             assumptions: &["executions are sequentially consistent interleavings at the granularity of flurry's instrumented atomic operations and lock acquisitions; seize and parking_lot internals run atomically between two such points", "schedules with more than two preemptions are only sampled"],
             run_shard: c01_shard,
             replay: c01_replay,
@@ -786,7 +786,7 @@ pub fn defs() -> Vec<PropDef> {
         PropDef {
             id: "C13",
             level: "exploration",
-            rule: "generated programs in which thread 0 runs retain(f) or retain_force(f) with a generated predicate while 1-2 other threads insert/replace/remove/compute the inspected keys, explored like C01; every rejected pair (k, v) becomes a conditional removal of k-if-still-v (retain) or an unconditional removal (retain_force) that must linearize between the predicate's return and the next predicate call; accepted pairs contribute nothing, so removing them, removing a replaced value, or failing to force-remove is unexplainable; plus sequential agreement with BTreeMap::retain; non-trivial = a concurrent write to an inspected key overlapped the window between verdict and removal and at least one pair was rejected",
+            rule: "generated programs in which thread 0 runs retain(f) or retain_force(f) with a generated predicate while 1-2 other threads insert/replace/remove/compute the inspected keys, explored like C01; every rejected pair (k, v) becomes a conditional removal of k-if-still-v (retain) or an unconditional removal (retain_force) that must linearize between the predicate's return and the next predicate call; accepted pairs contribute nothing, so removing them, removing a replaced value, or failing to force-remove is unexplainable; the same judge over programs with single and consecutive resizes (retain-resize), the first operations on an unallocated map (retain-first), long random-tape histories (retain-long) and concurrent HashSet programs (retain-set); plus sequential agreement with BTreeMap::retain; non-trivial = a concurrent write to an inspected key overlapped the window between verdict and removal and at least one pair was rejected",
             assumptions: &["as C01", "predicates are pure functions of (key, value)"],
             run_shard: c13_shard,
             replay: c13_replay,
